@@ -11,71 +11,74 @@ variable {bad : Hazard → Bool}
 /-! ## literals of a program -/
 
 mutual
-  /-- every literal of the expression is a deep-well-formed value (the elaborator produces scalars and typed nulls only) -/
-  def litE : Expr → Bool
+  /-- every literal of the expression is a deep-well-formed value (the elaborator produces scalars and typed nulls only); with
+  `sub = false` moreover: no call of `substr` / `subraw` (the two built-ins whose index arithmetic keeps a hazard in the model) -/
+  def litE (sub : Bool) : Expr → Bool
     | .lit v => okVal v
     | .var _ => true
     | .errorE => true
-    | .un _ a => litE a
-    | .bin _ a b => litE a && litE b
-    | .call _ args => litEs args
-    | .fcall _ args => litEs args
-    | .member _ recv args => litE recv && litEs args
-    | .item e _ => litE e
-  def litEs : List Expr → Bool
+    | .un _ a => litE sub a
+    | .bin _ a b => litE sub a && litE sub b
+    | .call name args => (sub || (name != "substr" && name != "subraw")) && litEs sub args
+    | .fcall _ args => litEs sub args
+    | .member _ recv args => litE sub recv && litEs sub args
+    | .item e _ => litE sub e
+  def litEs (sub : Bool) : List Expr → Bool
     | [] => true
-    | a :: as => litE a && litEs as
+    | a :: as => litE sub a && litEs sub as
 end
 
 mutual
-  def litS : Stmt → Bool
-    | .letS _ e => litE e
-    | .doS e => litE e
-    | .printS es => litEs es
-    | .ifS rules => litRules rules
-    | .whileS c body => litE c && litL body
-    | .forS _ b e st _ body => litE b && litE e && (match st with | some x => litE x | none => true) && litL body
-    | .forallS _ src _ body => litE src && litL body
-    | .beginS body catches => litL body && litCatches catches
-    | .returnS (some e) => litE e
+  def litS (sub : Bool) : Stmt → Bool
+    | .letS _ e => litE sub e
+    | .doS e => litE sub e
+    | .printS es => litEs sub es
+    | .ifS rules => litRules sub rules
+    | .whileS c body => litE sub c && litL sub body
+    | .forS _ b e st _ body => litE sub b && litE sub e && (match st with | some x => litE sub x | none => true) && litL sub body
+    | .forallS _ src _ body => litE sub src && litL sub body
+    | .beginS body catches => litL sub body && litCatches sub catches
+    | .returnS (some e) => litE sub e
     | .returnS none => true
     | .nop => true
     | .raiseS _ => true
     | .breakS => true
     | .continueS => true
-    | .funcS _ _ _ _ _ => true          -- a function's body is checked where it is CALLED: through the function table (`FuncsOk`)
-  def litL : List Stmt → Bool
+    | .funcS _ _ _ body catches => litL sub body && litCatches sub catches      -- wherever the declaration stands
+  def litL (sub : Bool) : List Stmt → Bool
     | [] => true
-    | s :: rest => litS s && litL rest
-  def litRules : List (Option Expr × List Stmt) → Bool
+    | s :: rest => litS sub s && litL sub rest
+  def litRules (sub : Bool) : List (Option Expr × List Stmt) → Bool
     | [] => true
-    | (c, body) :: rest => (match c with | some x => litE x | none => true) && litL body && litRules rest
-  def litCatches : List (String × List Stmt) → Bool
+    | (c, body) :: rest => (match c with | some x => litE sub x | none => true) && litL sub body && litRules sub rest
+  def litCatches (sub : Bool) : List (String × List Stmt) → Bool
     | [] => true
-    | (_, body) :: rest => litL body && litCatches rest
+    | (_, body) :: rest => litL sub body && litCatches sub rest
 end
 
-theorem litEs_mem : ∀ (args : List Expr), litEs args = true → ∀ a ∈ args, litE a = true
+variable {sub : Bool}
+
+theorem litEs_mem : ∀ (args : List Expr), litEs sub args = true → ∀ a ∈ args, litE sub a = true
   | [], _, a, ha => by cases ha
   | x :: xs, h, a, ha => by
-    have h' : litE x = true ∧ litEs xs = true := by simpa [litEs] using h
+    have h' : litE sub x = true ∧ litEs sub xs = true := by simpa [litEs] using h
     rcases List.mem_cons.mp ha with rfl | hm
     · exact h'.1
     · exact litEs_mem xs h'.2 a hm
 
 theorem litCatches_find (p : String × List Stmt → Bool) : ∀ (cs : List (String × List Stmt)) (n : String) (h : List Stmt),
-    litCatches cs = true → cs.find? p = some (n, h) → litL h = true
+    litCatches sub cs = true → cs.find? p = some (n, h) → litL sub h = true
   | [], _, _, _, hf => by cases hf
   | (m, b) :: rest, n, h, hl, hf => by
-    have hl' : litL b = true ∧ litCatches rest = true := by simpa [litCatches] using hl
+    have hl' : litL sub b = true ∧ litCatches sub rest = true := by simpa [litCatches] using hl
     rw [List.find?_cons] at hf
     split at hf
     · cases hf; exact hl'.1
     · exact litCatches_find p rest n h hl'.2 hf
 
 /-- what the parser guarantees of every function of the table: the body was compiled in its own context (nothing locked there) -/
-def FuncsOk (funcs : List Func) : Prop :=
-  ∀ f ∈ funcs, lockL [] f.body = true ∧ lockCatches [] f.catches = true ∧ litL f.body = true ∧ litCatches f.catches = true
+def FuncsOk (sub : Bool) (funcs : List Func) : Prop :=
+  ∀ f ∈ funcs, lockL [] f.body = true ∧ lockCatches [] f.catches = true ∧ litL sub f.body = true ∧ litCatches sub f.catches = true
 
 /-! ## the loop runners -/
 
